@@ -685,12 +685,13 @@ async fn run_async(sc: &Scenario, roots: Vec<PathBuf>) -> Trace {
         daemon_handles.push((i, h));
         // indication collector
         let sh = shared.clone();
+        // the destination path (in the receiving entity's filestore) of every put this entity takes part in
         let put_dst: Vec<(usize, TransactionID, PathBuf)> = sc
             .puts
             .iter()
             .enumerate()
-            .filter(|(_, p)| p.to == i)
-            .map(|(k, p)| (k, sc.put_id(k), roots[i].join(&p.dst_name)))
+            .filter(|(_, p)| p.to == i || p.from == i)
+            .map(|(k, p)| (k, sc.put_id(k), roots[p.to].join(&p.dst_name)))
             .collect();
         let evt = ind_evt_tx.clone();
         tokio::spawn(async move {
